@@ -287,3 +287,40 @@ def selfcheck(rng, n=300):
             return checked, npaths, dict(s1=s1, s2=s2, window=window, pen=pen, psi=psi, ms=ms,
                                          dist=dist.__name__, dp=v, enum=e)
     return checked, npaths, None
+
+
+def ref_best_path(s1, s2, window=None, penalty=0.0, psi=(0, 0, 0, 0), max_step=inf, dist=sq):
+    """one optimal admissible path (list of pairs) or None; penalty/max_step in the internal domain"""
+    r, c = len(s1), len(s2)
+    best = ref_matrix(s1, s2, window, penalty, psi, max_step, dist)
+    opt = ref_value(best, r, c, psi)
+    if opt == inf:
+        return None
+    end = None
+    for j in range(c):
+        if is_end(r - 1, j, r, c, psi) and close(best[r - 1][j], opt, 1e-12):
+            end = (r - 1, j)
+            break
+    if end is None:
+        for i in range(r):
+            if is_end(i, c - 1, r, c, psi) and close(best[i][c - 1], opt, 1e-12):
+                end = (i, c - 1)
+                break
+    i, j = end
+    path = [(i, j)]
+    while True:
+        d = dist(s1[i], s2[j])
+        v = best[i][j]
+        if is_start(i, j, psi) and close(d, v, 1e-12):
+            break
+        if i > 0 and j > 0 and close(best[i - 1][j - 1] + d, v, 1e-12):
+            i, j = i - 1, j - 1
+        elif i > 0 and close(best[i - 1][j] + penalty + d, v, 1e-12):
+            i -= 1
+        elif j > 0 and close(best[i][j - 1] + penalty + d, v, 1e-12):
+            j -= 1
+        else:
+            return None
+        path.append((i, j))
+    path.reverse()
+    return path
